@@ -464,7 +464,7 @@ func checkC19(c *Ctx, r *Report) {
 		var host ssa.Value
 		var walkFns func(fn *ssa.Function)
 		walkFns = func(fn *ssa.Function) {
-			for _, st := range findInstrs(fn, fieldWritePred(srvT+".Hostname")) {
+			for _, st := range findInstrsIn(fn, fieldWritePred(srvT+".Hostname")) {
 				hv := resolveVar(st.(*ssa.Store).Val, fn)
 				if host == nil {
 					host = hv
